@@ -51,7 +51,7 @@ class JSONField(ABC):
         assert isinstance(lab, JSONField)
         inst = lab.__class__()
         for k, v in lab.__dict__.items():
-            inst.__setattr__(k, v)
+            inst.__setattr__(k, v.copy() if isinstance(v, list) else v)
         inst._set_fields(**kwargs)
         return inst
 
